@@ -379,6 +379,14 @@ func runC01Case(run *runner, idx int64, cc *checkCase, schedules int, maxDepth i
 			st.perturb = nil
 			runtime.GOMAXPROCS(prev)
 		}
+		// the same property for a configuration that REPLACES another one on a live
+		// server: same registry, same engine instance, other definitions for the
+		// same namespace / relation names
+		if m.name == "ast-default" && idx%2 == 0 {
+			if v := runC01Replaced(run, idx, env, st, eng, maxDepth); v != "ok" {
+				verdict = v
+			}
+		}
 		// schedule/storage-order independence
 		for qi, a := range answers {
 			if len(a) > 1 {
@@ -650,4 +658,58 @@ func parseOPL(text string) (nn []namespace.Namespace, errs []string) {
 		return nil, []string{"panic: " + pt}
 	}
 	return nn, errs
+}
+
+
+func runC01Replaced(run *runner, idx int64, env *Env, st *instrStore, eng *check.Engine, maxDepth int) string {
+	p := run.p
+	cc2 := genCheckCase(p.rng(idx, "replacement"), idx+8, nil)
+	if err := env.SetNamespaces(cc2.Cfg.toKeto()); err != nil {
+		run.inconclusive(fmt.Sprintf("idx %d: replace namespaces: %v", idx, err))
+		return "ok"
+	}
+	if err := env.wipe(); err != nil {
+		return "ok"
+	}
+	if err := env.Write(shuffled(p.rng(idx, "replacement-order"), cc2.tuples)...); err != nil {
+		run.count("replacement_write_failed_skipped", 1)
+		return "ok"
+	}
+	ref := newRefSem(cc2.Cfg, false, cc2.tuples)
+	verdict := "ok"
+	reported := map[string]bool{}
+	for qi, q := range cc2.queries {
+		rr := ref.Check(q)
+		d := engineCheck(env, st, eng, q, 0, 4*time.Second)
+		run.eval(1)
+		run.count("checks_after_config_replacement", 1)
+		if rr.Unstratified || rr.SchemaError || d.Cuts > 0 || isNoDecision(d) {
+			continue
+		}
+		if d.Calls >= 2 && rr.Indirect {
+			run.nontrivial(fmt.Sprintf("%d/replaced/%d", idx, qi))
+		}
+		var sig, what string
+		switch {
+		case d.Err != "":
+			sig, what = "C01:error-after-config-replacement:"+errClass(d.Err), d.String()
+		case d.Allowed != rr.Member:
+			dir := "impl-denied/ref-allowed"
+			if d.Allowed {
+				dir = "impl-allowed/ref-denied"
+			}
+			sig, what = "C01:mismatch-after-config-replacement:"+dir, d.String()
+		default:
+			continue
+		}
+		verdict = "violation"
+		if reported[sig] {
+			continue
+		}
+		reported[sig] = true
+		run.violate(violation{Index: idx, Sub: fmt.Sprintf("replaced/q%d", qi), Sig: sig,
+			Summary: fmt.Sprintf("after the namespace configuration of the live registry was replaced, check %s answers %s; the reference semantics of the NEW configuration says %v", q, what, rr.Member),
+			Case:    cc2, Detail: map[string]any{"query": q.String()}})
+	}
+	return verdict
 }
